@@ -154,6 +154,26 @@ def check_eq(case, ctx):
             w[j] = x
         b.weights = w
         desc += " (edited in place on a deep copy)"
+    elif case["change"] in ("degree", "knot", "coordinate") and case["idx"] % 2 and case.get("oncopy", True):
+        # the same change made on a deep copy through the documented setters; the source must not follow the copy
+        b = copy.deepcopy(a)
+        sfx = [""] if d["kind"] == "curve" else ["_u", "_v", "_w"][:len(d["degree"])]
+        if case["change"] == "coordinate":
+            P = b.ctrlpts
+            for j, q in enumerate(dv["P"]):
+                P[j] = list(q)
+            b.ctrlpts = P
+        else:
+            for k, sx in enumerate(sfx):
+                if dv["degree"][k] != d["degree"][k]:
+                    setattr(b, "degree" + sx, dv["degree"][k])
+                if dv["kv"][k] != d["kv"][k]:
+                    setattr(b, "knotvector" + sx, list(dv["kv"][k]))
+        desc += " (made on a deep copy through the setters)"
+        ctx.label("change-made-on-deep-copy")
+        ctx.check(build.degrees_of(a) == d["degree"] and build.snapshot(a) == build.snapshot(build.make(d)), "copy-edit-changed-source",
+                  "editing a deep copy changed its source (%s): degrees %r" % (desc, build.degrees_of(a)))
+        ctx.check(build.snapshot(b) == build.snapshot(build.make(dv)), "copy-edit-wrong", "the edited deep copy is not the intended variant (%s)" % desc)
     ab, ba = (a == b), (b == a)
     ctx.check(ab == ba, "not-symmetric", "a == b is %r but b == a is %r (%s)" % (ab, ba, desc))
     ctx.check((a != b) == (not ab) and (b != a) == (not ba), "ne-not-negation", "!= is not the negation of == (%s)" % desc)
